@@ -6,7 +6,7 @@
 #include "seqmc.h"
 #include "qlibc.h"
 
-#define MAXN 8
+#define MAXN 10
 static int CAP0, OSZ, POLICY, N;
 typedef struct { int n; int e[MAXN + 2]; } model_t;
 static sm_spec_t SP;
@@ -14,7 +14,7 @@ static unsigned char ELB[3][64];
 
 enum { OP_ADDFIRST, OP_ADDLAST, OP_ADDAT, OP_SETAT, OP_SETFIRST, OP_SETLAST, OP_POPAT, OP_POPFIRST, OP_POPLAST, OP_REMOVEAT, OP_REMOVEFIRST, OP_REMOVELAST, OP_REVERSE, OP_RESIZE, OP_CLEAR };
 typedef struct { int kind, i, e; const char *label; } op_t;
-static op_t OPS[256]; static int NOPS;
+static op_t OPS[400]; static int NOPS;
 static const char *op_label(int op) { return OPS[op].label; }
 static int elid(const void *d) { for (int i = 0; i < 3; i++) if (!memcmp(ELB[i], d, OSZ)) return i; return -1; }
 static long n_growths, n_resize0;
